@@ -160,9 +160,10 @@ theorem C15_idempotent (ord inv : List Row) (now : Nat) (c : Cfg) (fs : FS) (G :
           have hfit' : sumNat r1.inv ≤ m := hfit
           have : sumNat r1.inv - m = 0 := by omega
           simp only [sizeSel, this, selectPrefix_zero]
-      have haged : r1.inv.filter (agedB (c.maxAge.map (now - ·))) = [] := by
+      have haged : (sortLRU r1.inv).filter (agedB (c.maxAge.map (now - ·))) = [] := by
         apply List.filter_eq_nil_iff.mpr
         intro x hx
+        have hx := (sortLRU_perm r1.inv).mem_iff.mp hx
         cases ha : c.maxAge with
         | none => simp [agedB]
         | some ag =>
@@ -191,9 +192,10 @@ theorem C15_idempotent (ord inv : List Row) (now : Nat) (c : Cfg) (fs : FS) (G :
         have hfit' : sumNat r1.inv ≤ m := hfit
         have : sumNat r1.inv - m = 0 := by omega
         simp only [sizeSel, this, selectPrefix_zero]
-    have haged : r1.inv.filter (agedB (c.maxAge.map (now - ·))) = [] := by
+    have haged : (sortLRU r1.inv).filter (agedB (c.maxAge.map (now - ·))) = [] := by
       apply List.filter_eq_nil_iff.mpr
       intro x hx
+      have hx := (sortLRU_perm r1.inv).mem_iff.mp hx
       cases ha : c.maxAge with
       | none => simp [agedB]
       | some ag =>
